@@ -8,7 +8,7 @@ from fractions import Fraction
 import framework as F
 
 ID = "C04"
-GEN = ["Infra", "Interpolation"]
+GEN = ["Infra", "Interpolation", "SynapseClasses"]
 LEVEL = "proof"
 TECHNIQUE = ("Coq proof: the four synapse step functions are scans whose closed forms are the documented impulse-response "
              "sums (induction over the spike train, reals); the spike/current records are C01 rings, so a delayed read is "
@@ -19,21 +19,31 @@ LEVEL_TEXT = ("Machine-checked proofs (Coq; reals axioms only) about a branch-by
               "SingleExponentialCurrent, DoubleExponentialCurrent, _synparam_at and the tensor path of RecordTensor.select: "
               "closed forms of the current for every spike train and injected current, spike record = input, "
               "value recorded k steps ago for every k < record size, on-grid / off-grid / beyond-range reads, "
-              "in-place = out-of-place, clear = resting state; run-time configuration changes (dt / delay setters = constructor "
+              "in-place = out-of-place, clear = resting state; the per-element formulas and call structure of the four classes "
+              "(forward: spike conversion, value pushed to each current record, records written; the current getters; clear; "
+              "_synparam_at's clamp and overbound decision; the double exponential's current_at) are GENERATED from the "
+              "classes on every run (Gen/SynapseClasses.v) and proved equal to the model's (tie_* obligations, one file per "
+              "class); run-time configuration changes (dt / delay setters = constructor "
               "state of the new configuration, in-place flag, invariant over mixed runs).  The model is run (vm_compute, binary64) against the real "
               "classes on seeded operation sequences; a Python convolution / list-of-past-values oracle states the property "
               "independently of the model.")
-LEVEL_NOTE = ("Trusted: Coq kernel; translator for interp_previous/nearest/expdecay, recordsz_expr, _unwind_ptr; the hand-written "
-              "model C04/Synapse.v (incl. a hand transcription of the tensor path of RecordTensor.select) validated by "
+LEVEL_NOTE = ("Trusted: Coq kernel; translator (interp_previous/nearest/expdecay, recordsz_expr, _unwind_ptr, and the pattern-checked "
+              "extractor of the synapse classes: per-element reading, self.<attr> reads as parameters, fails closed on any "
+              "other statement shape); the parts of the hand-written model C04/Synapse.v that are NOT tied to generated code "
+              "(record mechanics via C01, tensor shapes / broadcasting, the argument wiring of current_at / spike_at, the tensor "
+              "path of RecordTensor.select - proved equal to C02's model by the xm_* obligations) validated by "
               "correspondence only; torch broadcasting/gather/where modelled by their meaning. Batch-size changes and reassignment "
               "of spike_charge / time constants mid-run, and the three construction paths (direct, partialconstructor, connection "
               "constructor), are covered by correspondence + oracle only. Floating-point rounding is not "
               "proved (theorems are exact-arithmetic statements). Defect found by this check and since repaired in /repo (10db8c5): "
               "with maximum delay 0 a selector carrying the trailing D axis made _synparam_at raise / mis-broadcast; the "
               "witnesses stay in corpus/C04.")
-TRUSTED = ["hand-written model coq/C04/Synapse.v (four forward functions, clear, _synparam_at, DoubleExponentialCurrent.current_at, "
-           "hand transcription of the tensor-time path of RecordTensor.select, torch expand/where broadcasting) - tied to the code "
-           "by the correspondence check only",
+TRUSTED = ["hand-written model coq/C04/Synapse.v: its per-element formulas, written records, getters, clear, clamp / overbound "
+           "decision and DoubleExponentialCurrent.current_at combination are proved equal to Gen/SynapseClasses.v (generated "
+           "from the classes each run); what stays hand-written and tied by the correspondence check only: record mechanics, "
+           "tensor shapes and torch expand/where broadcasting, which record / interpolation / overbound current_at and spike_at "
+           "pass to _synparam_at, the transcription of the tensor-time path of RecordTensor.select",
+           "the synapse-class extractor in tools/translate.py (translate_synapse_classes): reading of the accepted statement shapes",
            "C01 ring model (coq/C01/Ring.v) for RecordTensor.push/peek/reset - owned and validated by property C01"]
 ASSUMES = ["theorems are exact-arithmetic (real number) statements; binary64 rounding is not modelled (the check compares the "
            "binary64 run of the same model with the implementation to 1e-9 relative)",
